@@ -108,6 +108,22 @@ def gen_db(rng, schema, maxrows=6, empty_p=0.12):
     return db
 
 
+def with_duplicates(db, rng, copies=3):
+    """every non-empty table gets `copies` more rows that repeat existing rows except for the key (first column)"""
+    out = []
+    for rows in db:
+        rows = [list(r) for r in rows]
+        if rows:
+            used = {r[0] for r in rows}
+            free = [x for x in range(1, 40) if x not in used]
+            for j in range(copies):
+                d = list(rng.choice(rows))
+                d[0] = free[j]
+                rows.append(d)
+        out.append(rows)
+    return out
+
+
 def sx_db(db):
     return "( " + " ".join("( " + " ".join("( " + " ".join(sx_val(v) for v in row) + " )" for row in rows) + " )" for rows in db) + " )"
 
@@ -603,6 +619,17 @@ class Gen:
         n = len(frame)
         return ("group {" + ", ".join(c.ref for c in frame) + "} (take 1)",
                 "( group_take ( " + " ".join(map(str, range(n))) + " ) (  ) - 1 )", [c.copy() for c in frame])
+
+    def tr_select_dups(self, frame, sname):
+        """keep one or two non-key columns only, so that the relation has duplicate rows"""
+        cand = [i for i, c in enumerate(frame) if not c.key and c.ty in (INT, TXT)]
+        if not cand:
+            return None
+        keep = sorted(self.rng.sample(cand, min(len(cand), self.rng.randint(1, 2))))
+        if len({frame[i].name for i in keep}) != len(keep):
+            return None
+        return ("select {" + ", ".join(frame[i].ref for i in keep) + "}", "( select ( " + " ".join(f"( col {i} )" for i in keep) + " ) )",
+                [frame[i].copy(ref=frame[i].name) for i in keep])
 
     def tr_select_left(self, frame, sname):
         """after a join: keep some columns of the left side only (what the INTERSECT / EXCEPT rewrites look for)"""
